@@ -149,6 +149,28 @@ func (v *victim) do(op Op) string {
 		// END is logged when the rotation has completed (migrate.done), not
 		// when the loop is back at its head 100 ms later.
 		v.waitPendingRotation()
+		// A watcher takes real snapshots (under the server's own lock) while the
+		// rotation runs and records, with one write, the moment the new window
+		// offset is visible. Visible means a client could have seen it: from then
+		// on the rotation has to survive a crash.
+		off0 := v.e.S.VerifSnapshot(false).Offset
+		stopWatch := make(chan struct{})
+		srv := v.e.S
+		go func() {
+			for {
+				select {
+				case <-stopWatch:
+					return
+				default:
+				}
+				if o := srv.VerifSnapshot(false).Offset; o != off0 {
+					v.logf("VISIBLE %d %d", op.I, o)
+					return
+				}
+				time.Sleep(50 * time.Microsecond)
+			}
+		}()
+		defer close(stopWatch)
 		before := drv.RotationsDone.Load()
 		ch := make(chan int, 1)
 		go func() { ch <- drv.StepRotation() }()
